@@ -33,8 +33,11 @@ from flexstack.btp.router import Router as BTPRouter
 from flexstack.btp.service_access_point import BTPDataRequest
 import flexstack.geonet.router as router_mod
 
-MODULES = ["Props.C02"]
+MODULES = ["Props.C02"] + __import__("gen_extract").bridge_modules("C02")   # + bridge lemmas of the functions py2lean could extract
 DRIVERS = ["Wire"]
+# bridge modules that are obligations of a run when py2lean can translate the current source (gen_extract families of C02);
+# one missing from MODULES = that family is covered by correspondence alone: recorded loudly by bridge_report()
+EXPECTED_BRIDGES = ["Props.C02BridgeBasic", "Props.C02BridgeCommon", "Props.C02BridgePV", "Props.C02BridgeExt", "Props.C02BridgeBtp"]
 TRUSTED = [
     "Wire/Spec.lean + REF in harness/props/c02.py: the ETSI layouts as data, transcribed by hand from EN 302 636-4-1 "
     "V1.4.1 clause 9 / 6.3 and EN 302 636-5-1 clause 7 (cross-checked against each other on every run)",
@@ -42,13 +45,19 @@ TRUSTED = [
     "send/forward (geometry, location table, CBF timers) is outside C02 - only the octets of what is sent are judged",
 ]
 ASSUMPTIONS = [
-    "GNDataRequest.length == len(data) (the BTP router guarantees it); security disabled (the secured envelope is C03/C05)",
+    "GNDataRequest.length == len(data) (the BTP router guarantees it); originated packets: security disabled (the secured "
+    "envelope is C03/C05); forwarding: unsecured packets + one secured scenario",
     "requested lifetimes < 1 000 000 ms (the cap above is known finding C20-KF1); the LT octet is judged by its VALUE "
     "(greatest representable lifetime not exceeding the request), the standard does not fix the (multiplier, base) pair",
+    "interface convention for the hop limit (property text of C20, Lean LTSpec.requestedHops): request.max_hop_limit 0 and 1 mean "
+    "'not specified' -> itsGnDefaultHopLimit; a multi-hop request can therefore not ask for hop limit 1 (design_notes/C20.md)",
     "known finding C02-KF1: the beacon common header carries itsGnIsMobile in bit 7 (0x01) instead of bit 0 (0x80) - pinned by "
     "tests/flexstack/geonet/test_router.py::test_GNDataRequestBeacon",
     "known finding C02-KF2: originated packets carry version 1 whatever itsGnProtocolVersion says - a repair breaks "
     "tests/flexstack/geonet/test_basic_header.py::test_initialize_with_mib_and_rhl (mock MIB)",
+    "known finding C02-KF3: a SECURED packet (basic-header NH = 2) is forwarded without its security envelope (unsecured "
+    "re-assembly of the verified plain message, NH = 1); one always-on scenario (signed DENM through a verifying forwarder); "
+    "the envelope itself (signature, certificate) is C03/C05's subject",
 ]
 
 # =====================================================================================================
@@ -302,6 +311,19 @@ def real_dec(hdr, data: bytes):
 
 
 MODEL_OP = {"lsr": "guc", "btpa": "btp", "btpb": "btp"}
+
+# fields of the standard's layout a decoder does NOT return (the classes have no attribute for them): the 10 reserved bits
+# of every GN_ADDR, and in the common header the 4 reserved bits after NH and the 7 reserved flag bits (Lean:
+# common_decode_reads_layout).  Every other field - the 8/16-bit reserved fields included - must be what is on the wire.
+UNRETURNED = {h: {i for i, (nm, w, _) in enumerate(REF_LAYOUT[h]) if nm == "reserved" and w == 10} for h in REF_LAYOUT}
+UNRETURNED["ch"] = {1, 8}
+
+
+def decraw_diff(hdr, wire: bytes, rd):
+    """fields (name, on the wire, returned) where an accepting decoder deviates from what the reference `unpack` reads"""
+    ref = ref_unpack(REF_LAYOUT[hdr], wire)
+    got = to_ref(hdr, rd)
+    return [(f[0], r, g) for i, (f, r, g) in enumerate(zip(REF_LAYOUT[hdr], ref, got)) if i not in UNRETURNED[hdr] and r != g]
 
 
 def hx(b: bytes):
@@ -623,16 +645,11 @@ def check_decoders(ctx, batch):
         if not isinstance(rd, str):
             # whatever the decoder accepts must be what the reference decoder reads, for the non-reserved fields
             L = HDR_LEN[hdr]
-            if len(data) >= L or hdr in ("btpa", "btpb"):
-                if len(data) >= L and hdr != "spv":
-                    ref = ref_unpack(REF_LAYOUT[hdr], data[:L])
-                    got = to_ref(hdr, rd)
-                    names = [f[0] for f in REF_LAYOUT[hdr]]
-                    bad = [(nm, r, g) for nm, r, g in zip(names, ref, got) if not nm.startswith("reserved")
-                           and nm != "flagsReserved" and r != g]
-                    if bad:
-                        ctx.violation(f"{hdr} decoder on {data[:L].hex()}: field {bad[0][0]} is {bad[0][1]} on the wire, decoder "
-                                      f"returned {bad[0][2]}", {"kind": "decraw", "hdr": hdr, "hex": data.hex()})
+            if len(data) >= L and (hdr != "spv" or len(data) == L):   # ShortPositionVector.decode reads the WHOLE input
+                bad = decraw_diff(hdr, data[:L], rd)
+                if bad:
+                    ctx.violation(f"{hdr} decoder on {data[:L].hex()}: field {bad[0][0]} is {bad[0][1]} on the wire, decoder "
+                                  f"returned {bad[0][2]}", {"kind": "decraw", "hdr": hdr, "hex": data.hex()})
         return rd
 
     for hdr in HDRS:
@@ -853,6 +870,18 @@ def req_data(rq):
     return payload
 
 
+def spec_requested_hops(max_hop_limit):
+    """INTERFACE CONVENTION (property text of C20; Lean: LTSpec.requestedHops): GNDataRequest.max_hop_limit is a plain int
+    (dataclass default 1, from_dict default 0) with no value for "not specified"; 0 and 1 stand for it"""
+    return max_hop_limit if max_hop_limit > 1 else None
+
+
+def spec_hop_limit(requested, mib_default):
+    """EN 302 636-4-1 10.3.x source operations (Lean: LTSpec.hopLimit): MHL = maximum hop limit of the GN-DATA.request if
+    specified, otherwise itsGnDefaultHopLimit; RHL = MHL"""
+    return mib_default if requested is None else requested
+
+
 def life_ms_eff(rq):
     return None if rq["life_ms"] is None else int(rq["life_ms"] / 1000.0 * 1000)
 
@@ -883,7 +912,7 @@ def expected(case, lt_octet):
             mhl = 1
             ext = ref_pack(R_SHB, lpv_ref(ego) + [0])
         else:
-            mhl = rq["mhl"] if rq["mhl"] > 1 else dhl
+            mhl = spec_hop_limit(spec_requested_hops(rq["mhl"]), dhl)
             if kind in ("gbc", "gac"):
                 ext = ref_pack(R_GBC, [sn, 0] + lpv_ref(ego) + list(rq["area"]) + [0])
             else:
@@ -1131,16 +1160,32 @@ FWD_MODES = {"tsb": ["simple"], "gac": ["simple"], "guc": ["simple"], "lsq": ["s
              "gbc": ["simple-inside", "outside", "cbf", "cbf", "scf-noneigh"]}
 
 
-def build_fwd_case(rng, kind, mode=None):
-    """a conformant packet of `kind` from some source, built with the reference packer, + the forwarder's set-up"""
+RHL_CLASSES = ["mid"] * 6 + ["0", "1", "2", "max", "max"]
+DE_STATES = ["absent"] * 3 + ["nbr-newer", "nbr-newer", "nbr-older", "nbr-equal", "known-not-nbr"]
+
+
+def tst_newer(a, b):
+    """EN 302 636-4-1 annex C.2: timestamp a is newer than b (32-bit wrap-around aware)"""
+    return (a > b and a - b <= (1 << 31)) or (b > a and b - a > (1 << 31))
+
+
+def build_fwd_case(rng, kind, mode=None, rhl_class=None, de_state=None):
+    """a conformant packet of `kind` from some source, built with the reference packer, + the forwarder's set-up:
+    received RHL in every class (0, 1 = exhausted: nothing may go out; 2; MHL; in between; MHL up to 255), the destination
+    of GUC / LS reply absent from, or present in, the forwarder's location table (neighbour with a newer / older / equal
+    position vector, or known but not a neighbour)"""
     mode = mode or rng.choice(FWD_MODES[kind])
     tst = now_tst()
     so = g_lpv(rng)
     so[3] = tst
     so[2] = rng.randint(1, (1 << 47))
-    so[6] = 0   # PAI false: GAC/GBC forwarders do not consult the source position then
-    mhl = rng.choice([2, 3, 10, 255])
-    rhl = rng.randint(2, mhl)
+    # GAC/GBC forwarders consult the source position when PAI is set (the packet may then legitimately not be forwarded)
+    so[6] = rng.randint(0, 1) if kind in ("tsb", "guc", "lsq", "lsr") else 0
+    mhl = rng.choice([1, 2, 3, 10, 255, 255])
+    rc = rhl_class or rng.choice(RHL_CLASSES)
+    rhl = {"0": 0, "1": 1, "2": min(2, mhl), "max": mhl}.get(rc)
+    if rhl is None:
+        rhl = rng.randint(min(2, mhl), mhl)
     payload = bytes(rng.getrandbits(8) for _ in range(rng.choice([0, 4, 9, 60])))
     tc = [0, rng.randint(0, 1), rng.randint(0, 63)]
     mobile = rng.randint(0, 1)
@@ -1149,6 +1194,7 @@ def build_fwd_case(rng, kind, mode=None):
     nh = rng.choice([1, 2])
     fwd_ego = g_ego(rng, tst)
     fwd_ego[2] = (1 << 47) + rng.randint(1, 1 << 40)
+    extra = {}
     if kind == "tsb":
         ht, hst, ext = 5, 1, ref_pack(R_TSB, [sn, 0] + lpv_ref(so))
     elif kind in ("gbc", "gac"):
@@ -1168,6 +1214,16 @@ def build_fwd_case(rng, kind, mode=None):
     elif kind in ("guc", "lsr"):
         de = g_spv(rng)
         de[2] = (1 << 47) + (1 << 44) + rng.randint(1, 1 << 40)
+        ds = de_state or rng.choice(DE_STATES)
+        if ds != "absent":
+            # the forwarder's location table knows the destination: PV time stamp within the entry lifetime of the clock
+            loct_tst = (tst - rng.randint(0, 5000)) % (1 << 32)
+            d = {"nbr-newer": rng.choice([1, 2, 999, 3000, 100000]), "nbr-equal": 0, "nbr-older": -rng.choice([1, 2, 999, 3000]),
+                 "known-not-nbr": rng.choice([1, 3000])}[ds]
+            de[3] = (loct_tst - d) % (1 << 32)             # DE PV time stamp carried by the packet
+            loct = list(de[0:3]) + [loct_tst, pick(rng, B32S, -(1 << 31), (1 << 31) - 1), pick(rng, B32S, -(1 << 31), (1 << 31) - 1),
+                                    rng.randint(0, 1), pick(rng, B15S, -(1 << 14), (1 << 14) - 1), g16(rng)]
+            extra = {"de_state": ds, "de_loct": loct, "de_nbr": ds != "known-not-nbr"}
         ht, hst = (2, 0) if kind == "guc" else (6, 1)
         if kind == "lsr":
             nh, payload = 0, b""
@@ -1179,7 +1235,21 @@ def build_fwd_case(rng, kind, mode=None):
         ext = ref_pack(R_LSQ, [sn, 0] + lpv_ref(so) + ga_ref(sought))
     basic = ref_pack(R_BASIC, [1, 1, 0, lt >> 2, lt & 3, rhl])
     common = ref_pack(R_COMMON, [nh, 0, ht, hst, tc[0], tc[1], tc[2], mobile, 0, len(payload), mhl, 0])
-    return {"kind": "fwd", "orig": kind, "mode": mode, "pkt": (basic + common + ext + payload).hex(), "fwd_ego": fwd_ego}
+    case = {"kind": "fwd", "orig": kind, "mode": mode, "pkt": (basic + common + ext + payload).hex(), "fwd_ego": fwd_ego,
+            "rhl_class": rc}
+    case.update(extra)
+    return case
+
+
+def prime_loct(r, case):
+    """the forwarder already knows the destination of the GUC / LS reply: as a neighbour (a single-hop packet was heard
+    from it) or as a non-neighbour (a multi-hop packet of it was heard)"""
+    if case.get("de_loct"):
+        lpv = mk_lpv(case["de_loct"])
+        if case.get("de_nbr"):
+            r.location_table.new_shb_packet(lpv, b"")
+        else:
+            r.location_table.new_tsb_packet(TSBExtendedHeader(sn=1, reserved=0, so_pv=lpv), b"")
 
 
 def forward(case):
@@ -1195,31 +1265,85 @@ def forward(case):
             return ll.take()
     r, ll, inds = mk_router([1, 1, 10, 60, 0], case["fwd_ego"], itsGnAreaForwardingAlgorithm=AreaForwardingAlgorithm.SIMPLE)
     with rs.quiet():
+        prime_loct(r, case)
         r.gn_data_indicate(bytes.fromhex(case["pkt"]))
     return ll.take()
 
 
-def judge_forward(ctx, case, sent, report=True):
+def refresh_pv(case):
+    """ORACLE (EN 302 636-4-1 10.3.8.3 step 8 + annex C.3): the forwarder of a GUC / LS reply replaces the DE PV of the packet
+    by the PV of its location table entry iff the destination is a NEIGHBOUR and the entry's PV is strictly newer (annex
+    C.2 order); returns that short PV (6 ints) or None"""
+    if not case.get("de_loct") or not case.get("de_nbr"):
+        return None
     pkt = bytes.fromhex(case["pkt"])
+    de = ref_unpack(R_SPV, pkt[12 + 28:12 + 48])       # m st reserved mid tst lat lon
+    loct = case["de_loct"]
+    return list(loct[0:6]) if tst_newer(loct[3], de[4]) else None
+
+
+def want_forward(case):
+    """ORACLE: octets a forwarder has to put on the wire for the received conformant packet; None = nothing (hop limit
+    exhausted: EN 302 636-4-1 10.3.x forwarder step 'decrement RHL; if RHL = 0 discard' - a packet received with RHL <= 1)"""
+    pkt = bytes.fromhex(case["pkt"])
+    if pkt[3] <= 1:
+        return None
     want = pkt[:3] + bytes([pkt[3] - 1]) + pkt[4:]
+    pv = refresh_pv(case)
+    if pv is not None:
+        want = want[:12 + 28] + ref_pack(R_SPV, spv_ref(pv)) + want[12 + 48:]
+    return want
+
+
+def judge_forward(ctx, case, sent, report=True):
+    want = want_forward(case)
     out = []
-    tagm = f"forwarded {case['orig']} [{case.get('mode', 'simple')}]"
-    if len(sent) != 1:
+    tagm = f"forwarded {case['orig']} [{case.get('mode', 'simple')}, rhl {case.get('rhl_class', 'mid')}, de {case.get('de_state', 'absent')}]"
+    if want is None:
+        if sent:
+            out.append(f"{tagm}: received with RHL {bytes.fromhex(case['pkt'])[3]} (hop limit exhausted) but {len(sent)} packet(s) "
+                       f"sent: {sent[0].hex()}")
+    elif len(sent) != 1:
+        # with PAI set the GAC/GBC forwarders may legitimately not forward (C06); the generator sets PAI only for types
+        # whose forwarders do not look at it, so exactly one packet is due here
         out.append(f"{tagm}: {len(sent)} packets sent, expected 1")
     elif sent[0] != want:
         i = next((i for i in range(min(len(want), len(sent[0]))) if want[i] != sent[0][i]), -1)
-        out.append(f"{tagm}: differs from the received packet beyond RHL-1 at octet {i}: {sent[0].hex()} vs {want.hex()}")
+        what = "DE PV (octets 40..59) not refreshed from the neighbour's location table entry / refreshed wrongly" \
+            if 40 <= i < 60 else "differs from the received packet beyond RHL-1"
+        out.append(f"{tagm}: {what} at octet {i}: {sent[0].hex()} vs {want.hex()}")
     if report:
         for w in out:
             ctx.violation(w, {"kind": "fwd", "case": case})
     return out
 
 
+def fwd_model_line(case):
+    pv = refresh_pv(case)
+    if pv is None:
+        return f"pkt fwd {case['pkt']}"
+    return "pkt fwdr " + " ".join(str(v) for v in pv) + f" {case['pkt']}"
+
+
+def add_fwd_to_batch(ctx, batch, case, sent):
+    """model correspondence for one forwarding case: one packet out -> its octets; nothing out -> `none`"""
+    if len(sent) == 1:
+        batch.add("pkt.fwd." + case["orig"], case, sent[0].hex(), fwd_model_line(case))
+    elif not sent and want_forward(case) is None:
+        batch.add("pkt.fwd." + case["orig"], case, "none", fwd_model_line(case))
+
+
 def check_forwarding(ctx, batch):
     rng = ctx.rng
     for kind in ("tsb", "gbc", "gac", "guc", "lsq", "lsr"):
-        for _ in range(ctx.scale(120, 1500)):
-            case = build_fwd_case(rng, kind)
+        cases = [build_fwd_case(rng, kind) for _ in range(ctx.scale(120, 1500))]
+        # every received-RHL class and, for GUC / LS reply, every state of the destination in the location table: always
+        for rc in ("0", "1", "2", "max"):
+            cases.append(build_fwd_case(rng, kind, rhl_class=rc))
+        if kind in ("guc", "lsr"):
+            for ds in ("nbr-newer", "nbr-older", "nbr-equal", "known-not-nbr"):
+                cases.append(build_fwd_case(rng, kind, rhl_class="mid", de_state=ds))
+        for case in cases:
             try:
                 sent = forward(case)
             except Exception as e:  # noqa: BLE001
@@ -1228,10 +1352,102 @@ def check_forwarding(ctx, batch):
             ctx.evals()
             judge_forward(ctx, case, sent)
             ctx.cover(f"fwd:{kind}:{case['mode']}")
+            ctx.cover(f"fwd:rhl:{case['rhl_class']}")
+            if kind in ("guc", "lsr"):
+                ctx.cover(f"fwd:{kind}:de:{case.get('de_state', 'absent')}:" + ("refresh" if refresh_pv(case) else "keep"))
             ctx.nontrivial(("fwd", case["pkt"]))
+            add_fwd_to_batch(ctx, batch, case, sent)
             if len(sent) == 1:
-                batch.add("pkt.fwd." + case["orig"], case, sent[0].hex(), f"pkt fwd {case['pkt']}")
-                ctx.sample("forward:" + kind, {"received": case["pkt"], "forwarded": sent[0].hex()}, per_kind=1)
+                ctx.sample("forward:" + kind + (":refresh" if refresh_pv(case) else ""),
+                           {"received": case["pkt"], "forwarded": sent[0].hex(), "de_loct": case.get("de_loct")}, per_kind=1)
+
+
+# ---- forwarding of a secured packet -----------------------------------------------------------------------
+def secured_forward_scenario():
+    """a signed DENM (GBC, basic-header NH = 2) from station 1 reaches a verifying station inside the area (SIMPLE area
+    forwarding); returns (received frame, verified plain message, frames the forwarder put on the link layer)"""
+    import dataclasses
+    import sec_common as sc
+    now = sc.its_now_s(CLOCK.ms)
+    live = dict(start=now - 1000, duration=("hours", 100))
+    p = sc.PKI()
+    root = p.root("root", **live)
+    aa = p.issue(root, "aa", issue=[sc.perm_all(1)], **live)
+    at = p.issue(aa, app=[36, 37], **live)
+    with rs.quiet():
+        tx = sc.RouterStation(p.backend, 1, [root], [aa], [], own=[at])
+        fw = sc.RouterStation(p.backend, 9, [root], [aa], [], lat=415000100, lon=21000100)
+        fw.router.mib = dataclasses.replace(fw.router.mib, itsGnAreaForwardingAlgorithm=AreaForwardingAlgorithm.SIMPLE)
+        fw.set_position(CLOCK.ms)
+        frames = tx.send("denm", b"c02-secured-forward", CLOCK.ms)
+        if len(frames) != 1:
+            return None
+        out = fw.receive(frames[0])
+        sent = fw.ll.take()
+    conf = out[3]
+    plain = bytes(conf.plain_message) if conf is not None and conf.plain_message else b""
+    return frames[0], plain, sent
+
+
+def judge_secured_forward(rx, plain, sent):
+    """ORACLE: EN 302 636-4-1 10.3.11.3 (forwarder operations) + 9.6 / TS 103 097: the basic header is outside the signed part
+    so that a forwarder updates RHL (and LT) only; the secured message is forwarded as received: octet for octet the
+    received packet with RHL - 1.  Returns [(what, finding id)]"""
+    if rx[0] & 15 != 2 or rx[3] < 2:
+        return None                                    # not the scenario (sender did not secure / hop limit exhausted)
+    want = rx[:3] + bytes([rx[3] - 1]) + rx[4:]
+    if len(sent) == 1 and sent[0] == want:
+        return []
+    fid = None
+    # precise signature of C02-KF3: exactly the unsecured re-assembly of the verified plain message
+    if len(sent) == 1 and plain and sent[0] == bytes([(rx[0] & 0xF0) | 1]) + rx[1:3] + bytes([rx[3] - 1]) + plain:
+        fid = "C02-KF3"
+        what = (f"forwarded secured GBC: {len(rx)} octets received with basic-header NH = 2, {len(sent[0])} octets forwarded with "
+                f"NH = 1: the security envelope (signature, signer, generation time) is stripped - forwarded {sent[0][:12].hex()}..., "
+                f"standard prescribes the received packet with RHL-1 {want[:12].hex()}...")
+    else:
+        what = (f"forwarded secured GBC: {len(sent)} packet(s) sent, expected the received packet with RHL-1; "
+                f"first {sent[0].hex() if sent else '-'} vs {want.hex()}")
+    return [(what, fid)]
+
+
+def check_secured_forward(ctx, batch):
+    try:
+        res = secured_forward_scenario()
+    except Exception as e:  # noqa: BLE001  (sec_common belongs to the security builders: a changed helper must not fail C02)
+        ctx.note(f"secured forwarding scenario skipped: {type(e).__name__}: {e}")
+        ctx.cover("fwd:secured:skipped")
+        return
+    ctx.evals()
+    out = None if res is None else judge_secured_forward(*res)
+    if out is None:
+        ctx.note("secured forwarding scenario skipped: the sender did not emit one secured packet with RHL >= 2")
+        ctx.cover("fwd:secured:skipped")
+        return
+    rx, plain, sent = res
+    for what, fid in out:
+        ctx.violation(what, {"kind": "fwd_secured"}, fid)
+    kept = 1 if (len(sent) == 1 and sent[0][0] & 15 == 2) else 0
+    ctx.extra.setdefault("variant", {})["C02-KF3 secured envelope kept when forwarding"] = bool(kept)
+    ctx.cover("fwd:secured:" + ("envelope-kept" if kept else "envelope-stripped"))
+    if len(sent) == 1 and plain:
+        batch.add("pkt.fwd.secured", {"received": rx.hex()[:80]}, sent[0].hex(), f"pkt fwds {kept} {rx.hex()} {plain.hex()}")
+        ctx.sample("forward:secured", {"received": rx.hex(), "forwarded": sent[0].hex()}, per_kind=1)
+
+
+def bridge_report(ctx):
+    """make the loss of a bridge obligation visible: evidence field + note + histogram key"""
+    active = [m for m in MODULES if m != "Props.C02"]
+    dropped = [m for m in EXPECTED_BRIDGES if m not in MODULES]
+    ctx.extra["bridge_obligations"] = {"expected": EXPECTED_BRIDGES, "active": active, "dropped": dropped}
+    for m in dropped:
+        msg = (f"BRIDGE-DROPPED {m}: py2lean could not translate the current source (see `extraction`); the equality "
+               f"'extracted function = model' is NOT a proof obligation of this run - correspondence only")
+        ctx.note(msg)
+        print(msg)
+        ctx.cover("bridge_dropped:" + m)
+    for m in active:
+        ctx.cover("bridge_active:" + m)
 
 
 # =====================================================================================================
@@ -1247,8 +1463,9 @@ def run_corpus(ctx, batch, var):
         elif k == "fwd":
             sent = forward(case["case"])
             judge_forward(ctx, case["case"], sent)
-            if len(sent) == 1:
-                batch.add("pkt.fwd." + case["case"]["orig"], case["case"], sent[0].hex(), f"pkt fwd {case['case']['pkt']}")
+            add_fwd_to_batch(ctx, batch, case["case"], sent)
+        elif k == "fwd_secured":
+            pass    # the signed-DENM forwarding scenario is always on (check_secured_forward): keys are fresh per run
         ctx.cover("corpus_cases:" + str(k))
     run_packet_cases(ctx, batch, pk, var, "corpus")
 
@@ -1262,6 +1479,7 @@ def run(ctx):
     var = variant()
     ctx.extra["variant"] = {"C20-KF1 capped": bool(var[0]), "C02-KF1 beacon flag repaired": bool(var[1]),
                             "C02-KF2 version from MIB": bool(var[2])}
+    bridge_report(ctx)
     try:
         with env():
             batch = Batch(ctx)
@@ -1272,6 +1490,7 @@ def run(ctx):
             check_decoders(ctx, batch)
             check_packets(ctx, batch, var)
             check_forwarding(ctx, batch)
+            check_secured_forward(ctx, batch)
     finally:
         pass
     batch.flush()
@@ -1294,6 +1513,7 @@ def search(ctx):
                 check_decoders(ctx, batch)
                 check_packets(ctx, batch, var)
                 check_forwarding(ctx, batch)
+                check_secured_forward(ctx, batch)
                 batch.items = []
                 if ctx.violations:
                     break
@@ -1321,9 +1541,7 @@ def replay(ctx, obj):
             print(f"{hdr} decoder raised {rd}")
             return False
         L = HDR_LEN[hdr]
-        ref = ref_unpack(REF_LAYOUT[hdr], data[:L])
-        got = to_ref(hdr, rd)
-        bad = [(f[0], r, g) for f, r, g in zip(REF_LAYOUT[hdr], ref, got) if not f[0].startswith("reserved") and f[0] != "flagsReserved" and r != g]
+        bad = decraw_diff(hdr, data[:L], rd)
         print(f"{hdr} {data.hex()} -> {rd}: {bad or 'ok'}")
         return bool(bad)
     if kind == "tc":
@@ -1334,6 +1552,19 @@ def replay(ctx, obj):
             (int(d.scf), int(d.channel_offload), d.tc_id) != (scf, co, tid)
         print(f"traffic class {tc}: {'violated' if bad else 'ok'}")
         return bad
+    if kind == "fwd_secured":
+        with env():
+            res = secured_forward_scenario()
+        out = None if res is None else judge_secured_forward(*res)
+        if out is None:
+            print("scenario did not produce a secured packet with RHL >= 2")
+            return False
+        known = {k["id"] for k in ctx.known if k.get("status") == "known"}
+        for w, fid in out:
+            print(("KNOWN " + fid + ": " if fid in known else "") + w)
+        if not out:
+            print("secured packet forwarded as received with RHL-1")
+        return any(fid not in known for _, fid in out)
     if kind in ("pkt", "fwd"):
         try:
             with env():
